@@ -517,16 +517,15 @@ def main(tier):
     rep.trusted = ['clang IR + sroa', 'tools/llir.py (dominators, dependencies, return sets)', 'nasm/objdump decoding, ASMFLOW']
     mod = llir.library('default')
     V = check_retcodes(rep, mod)
-    check_sinks_c(rep, mod, V)
-    check_overflow_needs_buffer(rep, mod)
-    check_asm(rep, V)
-    check_array_fills(rep, mod)
-    check_codelen_end(rep, mod)
-    check_kraft_cover(rep)
+    rep.attempt(check_sinks_c, rep, mod, V)
+    rep.attempt(check_overflow_needs_buffer, rep, mod)
+    rep.attempt(check_asm, rep, V)
+    rep.attempt(check_array_fills, rep, mod)
+    rep.attempt(check_codelen_end, rep, mod)
+    rep.attempt(check_kraft_cover, rep)
     import asmlin, c19
-    asmlin.check(rep, 'INFLATE', 6, c19.field_offsets('struct inflate_state', ['next_in', 'avail_in', 'next_out', 'avail_out', 'total_out']), r'^decode_huffman_code_block_stateless_0\d$')
+    rep.attempt(asmlin.check, rep, 'INFLATE', 6, c19.field_offsets('struct inflate_state', ['next_in', 'avail_in', 'next_out', 'avail_out', 'total_out']), r'^decode_huffman_code_block_stateless_0\d$')
     import siblings, fieldinit
-    siblings.check(rep, 'INFLATE', mod, {'decode_huffman_code_block_stateless_base': r'^decode_huffman_code_block_stateless_0\d$'}, sorted(fieldinit.struct_fields('inflate_state'), key=lambda x: x[1]), {}, 2)
-    asmlin.check_state_siblings(rep, 'INFLATE', mod, {'decode_huffman_code_block_stateless_base': r'^decode_huffman_code_block_stateless_0\d$'},
-                                c19.field_offsets('struct inflate_state', ['block_state'])['block_state'], {}, 2)
+    rep.attempt(siblings.check, rep, 'INFLATE', mod, {'decode_huffman_code_block_stateless_base': r'^decode_huffman_code_block_stateless_0\d$'}, sorted(fieldinit.struct_fields('inflate_state'), key=lambda x: x[1]), {}, 2)
+    rep.attempt(asmlin.check_state_siblings, rep, 'INFLATE', mod, {'decode_huffman_code_block_stateless_base': r'^decode_huffman_code_block_stateless_0\d$'}, c19.field_offsets('struct inflate_state', ['block_state'])['block_state'], {}, 2)
     return rep.finish()
